@@ -223,6 +223,33 @@ def c_val(v):
     return "(VFrame %s)" % clist(["(%s, %s)" % (cstr(c), clist(["None" if x is None else "(Some %d)" % tid(x) for x in cells])) for c, cells in v[1].items()])
 
 
+def fixed_cases():
+    """run on every run: a column declared with ONE type whose first cell has it and whose later cell is ==-equal but of another type
+    (1 / 1.0 / True, 0 / 0.0 / False), in argument and in return position, every representation of a missing cell in between; and the
+    same cells in the conforming order of types (set specifications).  Each cell is to be judged on its own type."""
+    out = []
+    I, F, S, B = 0, 1, 2, 3
+    cols = [(I, [1, 1.0]), (I, [0, None, 0.0]), (I, [2, 3, 2.0]), (F, [1.0, 1]), (F, [0.0, False]), (F, [2.5, 2.0, None, 2]),
+            (B, [True, 1]), (B, [False, 0.0]), (B, [True, None, 1.0]), (S, ["a", "a", 1])]
+    for k, (t, cells) in enumerate(cols):
+        nullkind = ["None", "nan", "NA", "NaT"][k % 4]
+        frame = ("frame", {"x": list(cells)}, nullkind)
+        spec = ("frame", {"x": ("type", t)})
+        out.append((True, {"a": spec}, None, [frame], {}))                       # argument, positional
+        out.append((True, {"a": spec}, None, [], {"a": frame}))                  # argument, keyword
+        out.append((True, {}, spec, [], {"r": frame}))                           # return value
+        both = ("frame", {"x": ("set", norm_set([("type", t), ("type", tid(cells[-1]) if cells[-1] is not None else t)]))})
+        out.append((True, {"a": both}, None, [frame], {}))                       # both types declared: conforming
+        out.append((False, {"a": spec}, None, [frame], {}))                      # switch off: returns
+    # conforming columns with a missing cell in each representation (None, NaN, pd.NA, pd.NaT): a missing cell is never a type error
+    for t, cells in ((I, [1, None, 2]), (S, ["a", None]), (F, [None, 2.5]), (B, [True, None, False])):
+        for nullkind in ("None", "nan", "NA", "NaT"):
+            frame = ("frame", {"x": list(cells)}, nullkind)
+            out.append((True, {"a": ("frame", {"x": ("type", t)})}, None, [frame], {}))
+            out.append((True, {}, ("frame", {"x": ("type", t)}), [], {"r": frame}))
+    return out
+
+
 def run(chk):
     rng = chk.rng
     n = N[chk.tier]
@@ -236,18 +263,22 @@ def run(chk):
                        "(0-3 positional + keyword arguments incl. missing ones, values None/scalar/frame with nulls, empty frames) x switch on/off (15% off); "
                        "non-trivial = at least one constrained argument; distinct by content")
     terms, meta = [], []
-    for i in range(n):
-        switch = rng.random() > 0.15
-        arg_specs = None if rng.random() < 0.1 else {k: gen_spec(rng) for k in rng.sample(["a", "b", "c"], rng.randint(0, 3))}
-        ret_spec = gen_spec(rng) if rng.random() < 0.4 else None
-        npos = rng.randint(0, 3)
-        pos = [gen_value(rng) for _ in range(npos)]
-        kw = {}
-        for k in ["a", "b", "c", "r"][npos:]:
-            if rng.random() < 0.75:
-                kw[k] = gen_value(rng)
+    fixed = fixed_cases()
+    for i in range(n + len(fixed)):
+        if i < len(fixed):
+            switch, arg_specs, ret_spec, pos, kw = fixed[i]
+        else:
+            switch = rng.random() > 0.15
+            arg_specs = None if rng.random() < 0.1 else {k: gen_spec(rng) for k in rng.sample(["a", "b", "c"], rng.randint(0, 3))}
+            ret_spec = gen_spec(rng) if rng.random() < 0.4 else None
+            npos = rng.randint(0, 3)
+            pos = [gen_value(rng) for _ in range(npos)]
+            kw = {}
+            for k in ["a", "b", "c", "r"][npos:]:
+                if rng.random() < 0.75:
+                    kw[k] = gen_value(rng)
         # bias towards conforming calls: half of the time re-draw values to fit the declared types
-        if rng.random() < 0.5 and arg_specs:
+        if i >= len(fixed) and rng.random() < 0.5 and arg_specs:
             names = ["a", "b", "c", "r"]
             for k, s in arg_specs.items():
                 ts = col_types(s) if s[0] != "frame" else None
